@@ -1,0 +1,7 @@
+//go:build !verif
+
+package main
+
+import "github.com/awalterschulze/goderive/derive"
+
+func verifOrder(ps []derive.Plugin) []derive.Plugin { return ps }
